@@ -1,0 +1,30 @@
+//go:build verif
+
+package css
+
+// Verification hooks: compiled only with the "verif" build tag.
+
+// VerifCount, when installed, is called once per invocation of
+// recursiveCheck. It may panic to abort a runaway call.
+var VerifCount func()
+
+func verifCount() {
+	if h := VerifCount; h != nil {
+		h()
+	}
+}
+
+// VerifRecursiveCheck exposes recursiveCheck so that it can be driven with
+// synthetic handlers.
+func VerifRecursiveCheck(value []string, funcs []func(string) bool) bool {
+	return recursiveCheck(value, funcs)
+}
+
+// VerifDefaultHandlerNames lists the property names that have a default handler.
+func VerifDefaultHandlerNames() []string {
+	out := []string{}
+	for k := range defaultStyleHandlers {
+		out = append(out, k)
+	}
+	return out
+}
